@@ -27,6 +27,19 @@ Theorem scan_total : forall s,
 Proof. exact scan_total_lemma. Qed.
 Print Assumptions scan_total.
 
+(* hence no primitive ever raises a foreign exception: all succeed, or (nesting above 100) all
+   report the BibTeX error -- except that a prefix of n <= 0 characters is empty without scanning *)
+Theorem primitives_total : forall s,
+  (too_deep 100 0 s = false /\
+   (exists n, bibtex_len s = Ok n) /\ (forall k, exists p, bibtex_prefix s k = Ok p) /\
+   (exists p, bibtex_purify s = Ok p) /\ (forall m, exists o, change_case s m = Ok o)) \/
+  (too_deep 100 0 s = true /\
+   bibtex_len s = PyErr E_BIBTEX (-1) /\
+   (forall k, (0 < k)%Z -> bibtex_prefix s k = PyErr E_BIBTEX (-1)) /\
+   bibtex_purify s = PyErr E_BIBTEX (-1) /\ (forall m, change_case s m = PyErr E_BIBTEX (-1))).
+Proof. exact primitives_total_lemma. Qed.
+Print Assumptions primitives_total.
+
 (* ---- text length ---- *)
 
 (* bibtex_len counts the non-brace tokens of the scan: a special character is one token *)
@@ -53,6 +66,13 @@ Print Assumptions prefix_len.
 Theorem prefix_nonpositive : forall s n, (n <= 0)%Z -> bibtex_prefix s n = Ok [].
 Proof. exact prefix_nonpos_lemma. Qed.
 Print Assumptions prefix_nonpositive.
+
+(* for every string: it is a prefix of the string followed by closing braces only, never more
+   of them than the prefix leaves open *)
+Theorem prefix_is_prefix : forall s n out, bibtex_prefix s n = Ok out ->
+  exists p k, out = p ++ repeat c_rbrace k /\ is_prefix p s /\ k <= cdepth_from 0 p.
+Proof. exact prefix_is_prefix_lemma. Qed.
+Print Assumptions prefix_is_prefix.
 
 (* it is a prefix of the string followed by exactly as many closing braces as that prefix
    leaves open.  FULL STATEMENT (all strings, k = cdepth_from 0 p) is refuted below; proved
